@@ -1,0 +1,26 @@
+//go:build verif
+
+// SPDX-License-Identifier: Apache-2.0
+
+package proxy
+
+import "sync/atomic"
+
+// VerifOnDequeue, when set, is called by the collecting goroutine of parallelMerge
+// ("merge") and of the concurrent middleware ("concurrent") after each select of its
+// receive loop has completed. Only built with the "verif" tag.
+var verifOnDequeue atomic.Value // of func(string)
+
+// SetVerifOnDequeue installs (or, with nil, removes) the observation callback.
+func SetVerifOnDequeue(f func(site string)) {
+	if f == nil {
+		f = func(string) {}
+	}
+	verifOnDequeue.Store(f)
+}
+
+func verifDequeued(site string) {
+	if f, ok := verifOnDequeue.Load().(func(string)); ok && f != nil {
+		f(site)
+	}
+}
